@@ -124,6 +124,7 @@ def run(ck, supports_table=None):
                     got_rq = (w["frame"]["kind"], lit(w["frame"]["range"]["start"]), lit(w["frame"]["range"]["end"]),
                               len(w["partition"]), len(w["sort"]))
         if got_rq is None or got_rq[:3] != want_rq or got_rq[3] != (1 if c["grouped"] else 0) or got_rq[4] != (1 if c["sorted"] else 0):
+            ck.stat("frame-corr", "disagreement:rq-window")
             ck.disagreement("window frame in RQ differs from the model of the `window` transform: %s: impl %r, model %r (partition %d, sort %d expected)" % (
                 c["src"], got_rq, want_rq, 1 if c["grouped"] else 0, 1 if c["sorted"] else 0),
                 {"src": c["src"], "impl_rq_window": got_rq, "model": list(want_rq), "rq": q if "ok" not in q else None}, lambda _c: None)
@@ -139,6 +140,7 @@ def run(ck, supports_table=None):
         want = want.strip()
         ck.stat("frame-corr", "elided" if not mtext else "explicit")
         if got != want:
+            ck.stat("frame-corr", "disagreement:over-text")
             ck.disagreement("OVER clause differs from the model: %s: impl %r, model %r" % (c["src"], got, want),
                             {"src": c["src"], "impl": a, "model_over": want}, lambda _c: None)
     ck.coverage["frame_corr_exhaustive"] = {"argument_sets": len(args), "cases": len(cases)}
